@@ -1271,7 +1271,12 @@ class AstEval:
                                 return val
                     finally:
                         if handler.name is not None:
-                            del self.sym_table[handler.name]
+                            # the name is unbound at the end of the handler; it might already have
+                            # been (eg, by a nested handler that used the same name)
+                            if isinstance(self.sym_table.get(handler.name), EvalLocalVar):
+                                self.sym_table[handler.name].set_undefined()
+                            else:
+                                self.sym_table.pop(handler.name, None)
                     break
             else:
                 raise err
